@@ -247,7 +247,7 @@ class AbstractDiagram(metaclass=abc.ABCMeta):
     def __dir__(self) -> list[str]:
         return dir(type(self)) + [
             f"as_{i.name}"
-            for i in imm.entry_points()["capellambse.diagram.formats"]
+            for i in imm.entry_points(group="capellambse.diagram.formats")
         ]
 
     def __getattr__(self, attr: str) -> t.Any:
